@@ -400,28 +400,28 @@ def oracle(sc, r):
             if r["hang"]:
                 bad.append((sig_hang(i), f"call {i} did not finish within the watchdog"))
             else:
-                bad.append(("scenario-process-died:" + last_family(i), f"rc={r['rc']} {r['stderr_tail'][-400:]}"))
+                bad.append(("scenario-process-died", f"rc={r['rc']} (last fault: {last_family(i)}) {r['stderr_tail'][-400:]}"))
             break
         failed = e["outcome"] != "ok"
         if failed:
             cls = e["outcome"][4:]
             if cls not in TERMINATION_ERRORS:
-                bad.append((f"unexpected-exception:{cls}:" + last_family(i), f"call {i} raised {cls}"))
+                bad.append((f"unexpected-exception:{cls}", f"call {i} raised {cls} (last fault: {last_family(i)})"))
             failures += 1
         else:
             if not e.get("results_correct"):
-                bad.append(("wrong-or-partial-results:" + last_family(i), f"call {i}: n_results={e.get('n_results')}"))
+                bad.append(("wrong-or-partial-results", f"call {i}: n_results={e.get('n_results')} (last fault: {last_family(i)})"))
         # "bounded time" is relative to the fault-free latency of the same call: a call moving a large result gets
         # 0.1 s per MB on top (600 MB: 11 s fault-free here, up to 20 s under load)
         bound = LAT_BOUND + 0.1 * sum(f.get("payload_mb", 0) for f in (sc["calls"][i].get("faults") or {}).values())
         if e["elapsed"] > bound:
-            bad.append(("slow:" + last_family(i), f"call {i} took {e['elapsed']} s (bound {bound} s)"))
+            bad.append(("slow-call", f"call {i} took {e['elapsed']} s (bound {bound} s; last fault: {last_family(i)})"))
         n_groups = sum(1 for g in groups[: i + 1] if g)
         if failures > n_groups:
-            bad.append(("call-fails-without-fault:" + last_family(i), f"{failures} failed calls after {n_groups} faults (call {i})"))
+            bad.append(("more-failed-calls-than-faults", f"{failures} failed calls after {n_groups} faults (call {i}; last fault: {last_family(i)})"))
             failures = n_groups  # report once
         if failed and prev_failed and not groups[i]:
-            bad.append(("second-call-fails:" + last_family(i), f"call {i} fails right after a failed call, with no new fault"))
+            bad.append(("call-after-failed-call-fails", f"call {i} fails right after a failed call, with no new fault (last fault: {last_family(i)})"))
         prev_failed = failed
     return bad
 
